@@ -275,7 +275,7 @@ class SupervisedOPF(OPF):
 
         logger.info("Learning the best classifier ...")
 
-        max_acc = 0
+        max_acc = -1
         previous_acc = 0
 
         t = 0
@@ -299,14 +299,17 @@ class SupervisedOPF(OPF):
                 if n.status != c.PROTOTYPE:
                     non_prototypes += 1
 
-            for err in errors:
+            for err in errors.ravel():
                 ctr = non_prototypes
 
                 while ctr > 0:
-                    j = int(r.generate_uniform_random_number(0, len(X_train)))
+                    j = int(r.generate_uniform_random_number(0, len(X_train))[0])
 
                     if self.subgraph.nodes[j].status != c.PROTOTYPE:
-                        X_train[j, :], X_val[err, :] = X_val[err, :], X_train[j, :]
+                        X_train[j, :], X_val[err, :] = (
+                            X_val[err, :].copy(),
+                            X_train[j, :].copy(),
+                        )
                         Y_train[j], Y_val[err] = Y_val[err], Y_train[j]
 
                         non_prototypes -= 1
@@ -325,7 +328,7 @@ class SupervisedOPF(OPF):
             )
 
             if delta < 0.0001 or t == n_iterations:
-                self = best_opf
+                self.subgraph = best_opf.subgraph
 
                 logger.info(
                     "Best classifier has been learned over iteration %d.", best_t + 1
